@@ -147,6 +147,17 @@ Proof.
   rewrite !Nat.eqb_refl, ss_eqb_refl. cbn [andb]. rewrite andb_true_r. apply Nat.ltb_lt. exact Hpos.
 Qed.
 
+Lemma render_xref_stream_text xnum size ents prev extra c xb subs d c' o :
+  render_xref_stream xnum size ents prev extra c = (xb, subs, d, c') ->
+  exists xtext e, xb = xtext ++ e /\ eolch e /\ text_of (RStream o subs d) (opt_prev prev) xnum xtext.
+Proof.
+  intros Ex.
+  destruct (render_xref_stream_shape _ _ _ _ _ _ _ _ _ _ Ex)
+    as (w0 & w1 & w2 & sA & sB & s1 & cd & s2 & e0 & e1 & s3 & e & Hw & HA & HB & Hs1 & Hs2 & Hs3 & He0 & He1 & Hee & Hxb).
+  eexists _, e. split; [rewrite Hxb; apply assoc15|]. split; [exact Hee|].
+  cbn [text_of]. exists w0, w1, w2, sA, sB, s1, cd, s2, e0, e1, s3. repeat split; try assumption; try apply HA; try apply HB.
+Qed.
+
 Lemma render_revision_spec r pos prev c b sec ps c' lim p :
   render_revision r pos prev c = (b, sec, ps, c') ->
   rev_ok r = true -> (pos + len b <= lim)%N -> (lim < lim10)%N ->
@@ -241,8 +252,7 @@ Proof.
     destruct (render_xref_stream (d_xnum r) size
                 ((d_xnum r, InUse 0 (Z.of_N (pos + len body + len ob)), 0%N) :: sents) None [] c3)
       as [[[xb ssubs] d] c4] eqn:Ex.
-    destruct (render_xref_stream_shape _ _ _ _ _ _ _ _ _ _ Ex)
-      as (w0 & w1 & w2 & sA & sB & s1 & cd & s2 & e0' & e1' & s3 & e & Hw & HA & HB & Hs1 & Hs2 & Hs3 & He0 & He1 & Hee & Hxb).
+    destruct (render_xref_stream_text _ _ _ _ _ _ _ _ _ _ (Z.of_N (pos + len body + len ob)) Ex) as (xtext & e & Hxb & Hee & Htext).
     destruct (group_entries (sort_entries tents) c4) as [g c5] eqn:G.
     destruct (to_rsubs g c5) as [rsubs c6] eqn:T.
     destruct (pick_hdr_eol c6) as [e0 c7]. destruct (pick_hdr_eol c7) as [e1 c8].
@@ -270,13 +280,12 @@ Proof.
     + exists e2, x1, x2, x3. cbn [rsec_off]. rewrite N2Z.id, Hsx. auto.
     + cbn [sec_check]. rewrite HtrP, HtrX, !andb_true_r.
       eapply (table_subs_ok size lim); eauto.
-    + cbn [hyb_of]. rewrite Hxb in *.
-      eexists (body ++ ob), _, e, d. split; [rewrite assoc15, <- !app_assoc; reflexivity|].
+    + cbn [hyb_of].
+      exists (body ++ ob), xtext, e, d. split; [rewrite Hxb, (app_assoc body ob); reflexivity|].
       split; [rewrite len_app; f_equal; lia|].
-      split; [|split; [|exact Hck]].
-      * cbn [text_of]. exists w0, w1, w2, sA, sB, s1, cd, s2, e0', e1', s3. repeat split; try assumption; try apply HA; try apply HB.
-      * admit.
-Admitted.
+      split; [exact Htext|split; [|exact Hck]].
+      eapply render_xref_stream_keep. exact Ex.
+Qed.
 
 (* ---------- where the sections lie ---------- *)
 Definition prev_rel (prev : option N) (ch : chain) : Prop := opt_prev prev = prev_of ch.
